@@ -1,13 +1,565 @@
-"""UCI process checks (stub, filled in below)."""
+"""Checks on the real binary as a process (black box over pipes), judged by TraceUci.tla, plus the model runs of
+Walleye.tla: C03 C08 C09 C16 C17, and the process-level parts of C10 / C18."""
+import glob
+import json
+import os
+import random
+import re
+import shutil
+from concurrent.futures import ThreadPoolExecutor
+
+import checks_rules as R
+import uci_driver as U
+import vcommon
+from vcommon import Run, ToolError, log
+
+OVERHEAD_MS = 250
+
+GO_ZERO = ["go", "go infinite", "go wtime 0 btime 0", "go wtime -5 btime -5 winc 0 binc 0", "go wtime 100 btime 100", "go wtime 101 btime 101",
+           "go movestogo 3", "go winc 0 binc 0 wtime 90 btime 90 movestogo 2"]
+GO_SMALL = ["go wtime 130 btime 130 movestogo 1", "go wtime 160 btime 160 winc 5 binc 5 movestogo 1", "go wtime 1000 btime 1000",
+            "go btime 400 wtime 400 movestogo 4", "go wtime 50 btime 50 winc 40 binc 40", "go wtime 225 btime 225 movestogo 1"]
+GO_MEDIUM = ["go wtime 475 btime 475 movestogo 1", "go wtime 1100 btime 1100 movestogo 5", "go wtime 3850 btime 3850",
+             "go wtime 600 btime 600 movestogo 2"]
+GO_ODD = ["go ponder wtime 400 btime 400 movestogo 2", "go searchmoves e2e4 d2d4 wtime 300 btime 300 movestogo 1", "go   wtime 300   btime 300 movestogo 1",
+          "go depth 3 wtime 200 btime 200 movestogo 1", "go wtime 300 frobnicate btime 300 movestogo 1", "go infinite wtime 200 btime 200 movestogo 1",
+          "go\twtime 200 btime 200 movestogo 1", "go wtime 200 btime 200 movestogo 1 nodes", "go mate wtime 250 btime 250 movestogo 1"]
+GARBAGE = ["", " ", "   \t ", "xyzzy", "stop", "ponderhit", "debug on", "register later", "isreadyy", "go2", "ucinewgame now", "éè ♔",
+           "a" * 3000, "uci", "setoption name Hash value 32", "setoption name Ponder value true", "ucinewgame", "flip", "d", "eval", "bench", "print",
+           "Go", "POSITION startpos", "quit1", "%s%s%n", "\x07\x1b[0m", "go_", "isready ", "   "]
 
 
-def timed_info_lines(run, pid, tier):
-    return
+def mk(pid, tier, replay):
+    return Run(pid, tier, "model_checking", replay=bool(replay) or bool(os.environ.get("VERIF_NO_EVIDENCE")))
 
 
-def position_dumps(run, pid, tier):
-    return
+def model_walleye(run, tier):
+    cfg = "MC_Walleye_fixed.cfg" if tier == "quick" else "MC_Walleye_fixed_big.cfg"
+    r = vcommon.tlc("Walleye", cfg, workers=8, xmx="8g", timeout=3000)
+    if not r["ok"]:
+        raise ToolError("Walleye model run failed:\n" + r["out"][-3000:])
+    run.add("states", r["distinct"])
+    run.add("transitions", r["states"])
+    run.cov.setdefault("model", []).append({"module": "Walleye (%s): safety + liveness, all interleavings" % cfg, "distinct_states": r["distinct"],
+                                            "states_generated": r["states"], "wall_s": round(r["wall"], 1)})
+
+
+def pool(h, seed, small=10, mate=6, rep=4, game=8, term=0):
+    path = os.path.join(vcommon.BUILD, "scen-uci-%d.json" % os.getpid())
+    vcommon.run_harness(h, ["scen", "--out", path, "--seed", seed, "--small", small, "--mate", mate, "--rep", rep, "--game", game, "--term", term])
+    items = json.load(open(path))
+    os.remove(path)
+    live = [x["cmd"] for x in items if x["tag"] != "terminal"]
+    live.append("position startpos")
+    live.append("position startpos moves e2e4 e7e5 g1f3")
+    return live, [x["cmd"] for x in items if x["tag"] == "terminal"]
+
+
+def plan(h, sessions):
+    """Attach to every go step the slices the engine's own parse_go_command / calculate_time_slice give (both colours)
+    and the token list; TraceUci picks the colour from the tracked position and checks the contract."""
+    lines = sorted({st["line"] for steps in sessions for st in steps if st["do"] == "go"})
+    if not lines:
+        return
+    d = os.path.join(vcommon.BUILD, "plan-%d" % os.getpid())
+    os.makedirs(d, exist_ok=True)
+    json.dump(lines, open(os.path.join(d, "in.json"), "w"))
+    vcommon.run_harness(h, ["slices", "--in", os.path.join(d, "in.json"), "--out", os.path.join(d, "out.ndjson")])
+    table = {}
+    for l in open(os.path.join(d, "out.ndjson")):
+        e = json.loads(l)
+        table[e["line"]] = e
+    shutil.rmtree(d, ignore_errors=True)
+    for steps in sessions:
+        for st in steps:
+            if st["do"] == "go":
+                e = table[st["line"]]
+                if e.get("panic"):
+                    raise ToolError("go line outside the driver's grammar: %r" % st["line"])
+                ex = st.setdefault("extra", {})
+                ex.update({"toks": e["toks"], "slice_w": e["slice_w"], "slice_b": e["slice_b"]})
+                st["wait_ms"] = max(e["slice_w"], e["slice_b"]) + 4000
+
+
+def run_sessions(binary, sessions, conc, trace_paths=None):
+    def one(i):
+        tp = trace_paths[i] if trace_paths else None
+        return U.run_script(binary, sessions[i], tp)
+    with ThreadPoolExecutor(max_workers=conc) as ex:
+        return list(ex.map(one, range(len(sessions))))
+
+
+def validate(run, pid, label, logs, also=(), shard_of=None, overhead=OVERHEAD_MS, scripts=None, binary=None):
+    """Write the session logs into NCPU trace files, validate with TraceUci, fold the verdicts."""
+    d = R.trace_dir(pid + "-" + label)
+    n = min(vcommon.NCPU, max(1, len(logs)))
+    files = [open(os.path.join(d, "uci%02d.ndjson" % i), "w") for i in range(n)]
+    where = {}
+    counts = [0] * n
+    for i, evs in enumerate(logs):
+        k = shard_of(i) % n if shard_of else i % n
+        for e in evs:
+            files[k].write(json.dumps(e) + "\n")
+            counts[k] += 1
+            where[(k, counts[k])] = i
+    for f in files:
+        f.close()
+    paths = [os.path.join(d, "uci%02d.ndjson" % i) for i in range(n)]
+    results = vcommon.validate_shards("TraceUci", "TraceUci.cfg", paths, env_extra={"OVERHEAD": str(overhead)})
+    totals, other = {}, {}
+    late = []
+    for r in results:
+        v = r["verdict"]
+        k = paths.index(r["file"])
+        run.add("states", r["distinct"])
+        run.add("transitions", max(r["states"] - 1, 0))
+        run.add("events_validated", v["lines"])
+        for kk, nn in v["cnt"].items():
+            totals[kk] = totals.get(kk, 0) + nn
+        for prop, line, code, detail in v["bad"]:
+            if prop == "TOOL":
+                raise ToolError("trace %s line %d: %s %s" % (r["file"], line, code, detail))
+            si = where.get((k, line))
+            if prop == pid or prop in also:
+                if code == "answered-late" and scripts is not None and binary is not None:
+                    late.append((si, code, detail))
+                    continue
+                script = scripts[si] if scripts is not None and si is not None else None
+                run.violation("%s:%s" % (code, re.sub(r"\s+", "_", detail)[:300]), "%s: %s" % (code, detail),
+                              {"type": "session", "script": script, "label": label})
+            else:
+                other[prop] = other.get(prop, 0) + 1
+                if os.environ.get("VERIF_DEBUG"):
+                    log("other: %s %s %s" % (prop, code, detail[:300]))
+    run.add("traces_validated_against_impl", len(logs))
+    # upper timing bounds are confirmed in isolation (3 of 3) before they are reported
+    for si, code, detail in late:
+        confirmed = 0
+        for _ in range(3):
+            evs = U.run_script(binary, scripts[si])
+            dd = R.trace_dir(pid + "-late")
+            p = os.path.join(dd, "uci00.ndjson")
+            U.write_trace(p, [evs])
+            rr = vcommon.validate_shards("TraceUci", "TraceUci.cfg", [p], env_extra={"OVERHEAD": str(overhead)})
+            if any(b[2] == "answered-late" for b in rr[0]["verdict"]["bad"]):
+                confirmed += 1
+            shutil.rmtree(dd, ignore_errors=True)
+        if confirmed == 3:
+            run.violation("%s:%s" % (code, re.sub(r"\s+", "_", detail)[:300]), "%s (reproduced 3/3 in isolation): %s" % (code, detail),
+                          {"type": "session", "script": scripts[si], "label": label})
+        else:
+            run.cov["late_answers_not_reproduced"] = run.cov.get("late_answers_not_reproduced", 0) + 1
+    if other:
+        log("conjuncts of other properties failed in the same trace (not judged here): %s" % other)
+    ec = run.cov.setdefault("event_counts", {})
+    for kk, nn in totals.items():
+        ec[kk] = ec.get(kk, 0) + nn
+    shutil.rmtree(d, ignore_errors=True)
+    return totals
+
+
+def sample_session(run, script, evs):
+    outs = [e["line"] for e in evs if e["ev"] == "out" and e.get("k") in ("bestmove", "readyok")]
+    run.sample({"script": [(st["do"], st.get("line", "")[:90]) for st in script][:8], "answers": outs[:6]})
 
 
 def replay_session(run, pid, spec):
+    binary = vcommon.build_binary(False)
+    h = vcommon.build_harness()
+    script = spec["script"]
+    plan(h, [script])
+    logs = [U.run_script(binary, script)]
+    validate(run, pid, "replay", logs, scripts=[script], binary=binary)
     return run.finish()
+
+
+# ------------------------------------------------------------------------------------------------------------
+def c03(tier, replay):
+    run = mk("C03", tier, replay)
+    if replay:
+        return replay_session(run, "C03", json.load(open(replay))["replay"])
+    rng = random.Random(vcommon.seed() * 31 + 3)
+    h = vcommon.build_harness()
+    binary = vcommon.build_binary(False)
+    q = tier == "quick"
+    live, _ = pool(h, vcommon.seed(), 12 if q else 60, 6 if q else 30, 4 if q else 20, 10 if q else 60)
+    sessions = []
+    # every command sequence of the process model's environment up to length 3 (position / go zero / go timed / isready / garbage)
+    alphabet = ["pos", "go0", "got", "ready", "junk"]
+    seqs = [[a] for a in alphabet] + [[a, b] for a in alphabet for b in alphabet] + \
+           [[a, b, c] for a in alphabet for b in alphabet for c in alphabet]
+    if q:
+        seqs = [s for s in seqs if len(s) < 3] + rng.sample([s for s in seqs if len(s) == 3], 25)
+    for sq in seqs:
+        steps = []
+        for a in sq:
+            if a == "pos":
+                steps.append({"do": "send", "line": rng.choice(live)})
+            elif a == "go0":
+                steps.append({"do": "go", "line": rng.choice(GO_ZERO)})
+            elif a == "got":
+                steps.append({"do": "go", "line": rng.choice(GO_SMALL + GO_ODD)})
+            elif a == "ready":
+                steps.append({"do": "isready"})
+            else:
+                steps.append({"do": "send", "line": rng.choice(GARBAGE)})
+        sessions.append(steps)
+    # runs of consecutive go commands on one position (answers must be legal in the position reached by the previous answers)
+    for _ in range(14 if q else 150):
+        steps = [{"do": "send", "line": rng.choice(live)}]
+        for _ in range(rng.randint(2, 6)):
+            steps.append({"do": "go", "line": rng.choice(GO_ZERO + GO_SMALL + GO_ODD)})
+        sessions.append(steps)
+    # tiny slices (1-30 ms): the deadline falls into the first root move / the polling sleep
+    for _ in range(10 if q else 100):
+        steps = []
+        for _ in range(3):
+            steps.append({"do": "send", "line": rng.choice(live)})
+            steps.append({"do": "go", "line": "go wtime %d btime %d movestogo 1" % ((rng.randint(101, 140),) * 2)})
+            steps.append({"do": "go", "line": rng.choice(GO_ZERO)})
+        sessions.append(steps)
+    plan(h, sessions)
+    logs = run_sessions(binary, sessions, 8)
+    sample_session(run, sessions[-1], logs[-1])
+    totals = validate(run, "C03", "sessions", logs, scripts=sessions, binary=binary)
+    if totals.get("bestmoves", 0) < 20:
+        raise ToolError("coverage hole: fewer than 20 bestmove lines observed")
+    model_walleye(run, tier)
+    run.cov["rule"] = ("sessions against the real binary (guard off): every command sequence of Walleye.tla's environment alphabet {position, go with zero "
+                       "allowance, go with a clock, isready, ignored line} up to length 3 (quick: all of length <= 2 and a sample of length 3), runs of 2-6 "
+                       "consecutive go on one position, and go with 1-30 ms slices followed by a zero-allowance go; positions from the scenario generators "
+                       "(endgames, mate positions, repetition histories, game positions with move lists), go parameters from a grid incl. none / infinite / "
+                       "zero / negative / unknown tokens; TraceUci tracks the position with Chess!Apply and requires exactly one bestmove per go, legal and "
+                       "well spelled")
+    return run.finish()
+
+
+def c08(tier, replay):
+    run = mk("C08", tier, replay)
+    if replay:
+        return replay_session(run, "C08", json.load(open(replay))["replay"])
+    rng = random.Random(vcommon.seed() * 31 + 8)
+    h = vcommon.build_harness()
+    binary = vcommon.build_binary(False)
+    q = tier == "quick"
+    live, term = pool(h, vcommon.seed() + 1, 8 if q else 40, 10 if q else 60, 3 if q else 20, 6 if q else 40, 14 if q else 120)
+    clocks = ["go wtime 130 btime 130 movestogo 1", "go wtime 350 btime 350 movestogo 1", "go wtime 1000 btime 1000 movestogo 10", "go wtime 104 btime 104 movestogo 1",
+              "go wtime 112 btime 112 movestogo 1", "go wtime 60 btime 60 winc 30 binc 30 movestogo 3", "go wtime 700 btime 700 movestogo 2"]
+    sessions = []
+    for t in term:
+        for c in rng.sample(clocks, 2 if q else 4):
+            sessions.append([{"do": "send", "line": t}, {"do": "go", "line": c}, {"do": "isready"},
+                             {"do": "send", "line": rng.choice(live)}, {"do": "go", "line": rng.choice(clocks)}, {"do": "isready"}])
+    for p in live:
+        c = rng.choice(clocks)
+        sessions.append([{"do": "send", "line": p}, {"do": "go", "line": c}, {"do": "isready"}, {"do": "go", "line": rng.choice(clocks)}, {"do": "isready"}])
+    # go after the engine's own move may meet a finished game: mate-in-one positions, two go in a row
+    for p in [x for x in live if True][: (10 if q else 60)]:
+        sessions.append([{"do": "send", "line": p}, {"do": "go", "line": "go wtime 220 btime 220 movestogo 1"}, {"do": "go", "line": "go wtime 130 btime 130 movestogo 1"},
+                         {"do": "isready"}])
+    plan(h, sessions)
+    logs = run_sessions(binary, sessions, 4)
+    sample_session(run, sessions[0], logs[0])
+    totals = validate(run, "C08", "sessions", logs, scripts=sessions, binary=binary)
+    if totals.get("terminal_gos", 0) < 5:
+        raise ToolError("coverage hole: fewer than 5 go commands in finished games")
+    model_walleye(run, tier)
+    run.cov["rule"] = ("finished games (checkmates / stalemates from the generators and fixed ones) and live positions x clocks with movestogo >= 1; each go must be "
+                       "answered (null move iff Chess!Legal is empty) within slice + %d ms, then isready -> readyok, then a further position / go is served; two "
+                       "go in a row after mate-in-one positions (the engine's own move may end the game); liveness go ~> bestmove model-checked in Walleye.tla" % OVERHEAD_MS)
+    run.assumptions.append("upper timing bounds depend on the machine; a late answer is reported only when reproduced 3/3 in isolation")
+    return run.finish()
+
+
+def go_grid(rng, n_random):
+    clocks = [-1000, -1, 0, 1, 99, 100, 101, 102, 105, 110, 199, 200, 1000, 59999, 60000, 1000000, 200000000]
+    incs = [-5, 0, 1, 2, 100, 1000, 100000]
+    mtgs = [None, 1, 2, 29, 30, 31, 40, 1000]
+    lines = []
+    for c in clocks:
+        for i in incs:
+            for m in mtgs:
+                other_c = rng.choice(clocks)
+                other_i = rng.choice(incs)
+                parts = [("wtime", c), ("winc", i), ("btime", other_c), ("binc", other_i)]
+                if m is not None:
+                    parts.append(("movestogo", m))
+                rng.shuffle(parts)
+                toks = ["go"]
+                for k, v in parts:
+                    if rng.random() < 0.15:
+                        toks.append(rng.choice(["ponder", "infinite", "foo", "searchmoves"]))
+                    toks += [k, str(v)]
+                lines.append(" ".join(toks))
+                parts = [("btime", c), ("binc", i), ("wtime", other_c), ("winc", other_i)] + ([("movestogo", m)] if m is not None else [])
+                rng.shuffle(parts)
+                lines.append("go " + " ".join("%s %d" % kv for kv in parts))
+    for _ in range(n_random):
+        parts = []
+        for k in ("wtime", "btime", "winc", "binc"):
+            if rng.random() < 0.8:
+                parts.append((k, rng.choice([rng.randint(-200, 400), rng.randint(0, 100000), rng.randint(0, 200000000)])))
+        if rng.random() < 0.6:
+            parts.append(("movestogo", rng.randint(1, 200)))
+        rng.shuffle(parts)
+        lines.append("go " + " ".join("%s %d" % kv for kv in parts))
+    return lines
+
+
+def c09(tier, replay):
+    run = mk("C09", tier, replay)
+    if replay:
+        spec = json.load(open(replay))["replay"]
+        if spec.get("type") == "session":
+            return replay_session(run, "C09", spec)
+    rng = random.Random(vcommon.seed() * 31 + 9)
+    h = vcommon.build_harness()
+    q = tier == "quick"
+    # pure part: the slice function on an edge grid + random values
+    lines = [json.load(open(replay))["replay"]["line"]] if replay else go_grid(rng, 2000 if q else 100000)
+    d = R.trace_dir("C09-grid")
+    json.dump(lines, open(os.path.join(d, "in.json"), "w"))
+    vcommon.run_harness(h, ["slices", "--in", os.path.join(d, "in.json"), "--out", os.path.join(d, "all.ndjson")])
+    evs = [json.loads(l) for l in open(os.path.join(d, "all.ndjson"))]
+    n = vcommon.NCPU
+    fs = [open(os.path.join(d, "uci%02d.ndjson" % i), "w") for i in range(n)]
+    for i, e in enumerate(evs):
+        if e.get("panic"):
+            run.violation("panic:" + e["line"].replace(" ", "_"), "parse_go_command panicked on a well-formed go", {"type": "slice", "line": e["line"]})
+            continue
+        fs[i % n].write(json.dumps(e) + "\n")
+    for f in fs:
+        f.close()
+    os.remove(os.path.join(d, "in.json"))
+    os.remove(os.path.join(d, "all.ndjson"))
+    paths = sorted(glob.glob(os.path.join(d, "uci*.ndjson")))
+    results = vcommon.validate_shards("TraceUci", "TraceUci.cfg", paths, env_extra={"OVERHEAD": str(OVERHEAD_MS)})
+    nsl = 0
+    for r in results:
+        run.add("states", r["distinct"])
+        run.add("transitions", max(r["states"] - 1, 0))
+        nsl += r["verdict"]["cnt"]["slices"]
+        for prop, line, code, detail in r["verdict"]["bad"]:
+            if prop == "C09":
+                e = vcommon.read_event(r["file"], line)
+                run.violation("%s:%s" % (code, e["line"].replace(" ", "_")), "%s: %s" % (code, detail), {"type": "slice", "line": e["line"]})
+    run.cov["slice_events"] = nsl
+    run.sample({"go": evs[0]["line"], "slice_white": evs[0].get("slice_w"), "slice_black": evs[0].get("slice_b")})
+    shutil.rmtree(d, ignore_errors=True)
+    if replay:
+        return run.finish()
+    # timed part: the real delay against the plan (the colour decides which clock counts)
+    binary = vcommon.build_binary(False)
+    live, _ = pool(h, vcommon.seed() + 2, 6, 2, 0, 6)
+    timed = ["go wtime 350 btime 1100 movestogo 1", "go wtime 1100 btime 350 movestogo 1", "go wtime 600 btime 2100 movestogo 2", "go wtime 2100 btime 600 movestogo 2",
+             "go wtime 60 btime 60 winc 300 binc 40", "go wtime 90 btime 90 winc 40 binc 300", "go wtime 6100 btime 9100", "go wtime 475 btime 475 movestogo 1",
+             "go wtime 100 btime 100 winc 0 binc 0", "go wtime 150 btime 150 movestogo 1"]
+    sessions = []
+    for i in range(12 if q else 100):
+        sessions.append([{"do": "send", "line": rng.choice(live)}, {"do": "go", "line": rng.choice(timed)}, {"do": "go", "line": rng.choice(timed)}])
+    plan(h, sessions)
+    logs = run_sessions(binary, sessions, 4)
+    sample_session(run, sessions[0], logs[0])
+    totals = validate(run, "C09", "timed", logs, also=(), scripts=sessions, binary=binary)
+    # C09 owns both directions of the timing claim
+    run.cov["timed_go"] = totals.get("gos", 0)
+    model_walleye(run, tier)
+    run.cov["rule"] = ("pure: go lines on an edge grid (clock in {-1000..2*10^8} x increment x movestogo in {absent,1,2,29,30,31,40,1000} x both colours, the other "
+                       "side's values varied, keyword order permuted, unknown tokens interleaved) + random lines through parse_go_command and calculate_time_slice; "
+                       "TLC re-parses the tokens (TimeControl!ParseGo) and checks SliceOK for both colours and independence from the other side's values; timed: "
+                       "go->bestmove delay of the real binary within [plan, plan + %d ms] with clocks whose colour mix-up would move the delay by >= 250 ms" % OVERHEAD_MS)
+    run.assumptions.append("values beyond 2*10^8 ms are outside TLC's 32-bit integers and not covered")
+    return run.finish()
+
+
+def c16(tier, replay):
+    run = mk("C16", tier, replay)
+    if replay:
+        return replay_session(run, "C16", json.load(open(replay))["replay"])
+    rng = random.Random(vcommon.seed() * 31 + 16)
+    h = vcommon.build_harness()
+    binary = vcommon.build_binary(False)
+    q = tier == "quick"
+    live, term = pool(h, vcommon.seed() + 3, 10 if q else 50, 4 if q else 20, 6 if q else 30, 10 if q else 60, 2)
+    nprobe = 16 if q else 150
+    sessions, shard = [], []
+    for pi in range(nprobe):
+        cmd = rng.choice(live)
+        timed = pi % 4 == 3
+        goline = rng.choice(["go wtime 700 btime 700 movestogo 2", "go wtime 475 btime 475 movestogo 1"]) if timed else rng.choice(GO_ZERO)
+        probe = [{"do": "send", "line": cmd}, {"do": "go", "line": goline, "extra": {"probe": "p%d" % pi, "timed": timed}}]
+        # (a) fresh process, (b) repeated, (c..) after prefixes
+        variants = [[], list(probe)]
+        # another game with searches
+        pre = [{"do": "send", "line": rng.choice(live)}, {"do": "go", "line": rng.choice(GO_SMALL)}, {"do": "go", "line": rng.choice(GO_ZERO)}]
+        variants.append(pre)
+        # the same game sent move by move, as a GUI does, with a search after each prefix
+        toks = cmd.split(" moves ")
+        if len(toks) == 2:
+            mv = toks[1].split()
+            pre2 = []
+            for j in range(0, len(mv), max(1, len(mv) // 4)):
+                pre2.append({"do": "send", "line": toks[0] + (" moves " + " ".join(mv[:j]) if j else "")})
+                pre2.append({"do": "go", "line": rng.choice(GO_ZERO + GO_SMALL)})
+            variants.append(pre2)
+        # ucinewgame / setoption / ignored lines / a finished game
+        pre3 = [{"do": "send", "line": "ucinewgame"}, {"do": "send", "line": rng.choice(live)}, {"do": "send", "line": "setoption name Hash value 16"},
+                {"do": "send", "line": rng.choice(GARBAGE)}, {"do": "go", "line": rng.choice(GO_SMALL)}, {"do": "send", "line": "ucinewgame"}]
+        if term:
+            pre3 += [{"do": "send", "line": term[0]}, {"do": "go", "line": "go"}]
+        variants.append(pre3)
+        # a long history with repetitions before (the record of an earlier game must not leak)
+        pre4 = [{"do": "send", "line": "position startpos moves g1f3 g8f6 f3g1 f6g8 g1f3 g8f6 f3g1 f6g8"}, {"do": "go", "line": rng.choice(GO_ZERO)},
+                {"do": "send", "line": cmd}, {"do": "go", "line": rng.choice(GO_SMALL)}]
+        variants.append(pre4)
+        for v in variants:
+            sessions.append(v + probe)
+            shard.append(pi)
+    plan(h, sessions)
+    logs = run_sessions(binary, sessions, 6)
+    sample_session(run, sessions[2], logs[2])
+    totals = validate(run, "C16", "probes", logs, shard_of=lambda i: shard[i], scripts=sessions, binary=binary)
+    if totals.get("probes", 0) < nprobe * 3:
+        raise ToolError("coverage hole: probes not executed")
+    run.cov["probe_requests"] = nprobe
+    run.cov["probe_runs"] = totals.get("probes", 0)
+    model_walleye(run, tier)
+    run.cov["rule"] = ("each probe request (position X + go) runs in a fresh process, twice in a row, and after prefixes: another game with searches, the same game "
+                       "sent move by move with searches, ucinewgame / setoption / ignored lines / a finished game, a game with a long repetition history; TraceUci "
+                       "keeps memo[request] and requires the identical bestmove under a zero allowance and prefix-related (depth, nodes, score, first pv move) "
+                       "sequences under a timed one; Walleye.tla: after Position the board and record are functions of the command (RecordFresh)")
+    return run.finish()
+
+
+def c17(tier, replay):
+    run = mk("C17", tier, replay)
+    if replay:
+        return replay_session(run, "C17", json.load(open(replay))["replay"])
+    rng = random.Random(vcommon.seed() * 31 + 17)
+    h = vcommon.build_harness()
+    binary = vcommon.build_binary(False)
+    q = tier == "quick"
+    live, _ = pool(h, vcommon.seed() + 4, 8, 4, 3, 8)
+    sessions, shard = [], []
+    # garbage interleaved with well-formed commands; a probe at the end must give the same reply as without the garbage
+    nprobe = 10 if q else 80
+    for pi in range(nprobe):
+        cmd = rng.choice(live)
+        goline = rng.choice(GO_ZERO)
+        probe = [{"do": "send", "line": cmd}, {"do": "go", "line": goline, "extra": {"probe": "g%d" % pi}}]
+        clean = [{"do": "send", "line": cmd}, {"do": "isready"}]
+        sessions.append(clean + probe)
+        shard.append(pi)
+        for _ in range(2):
+            noisy = []
+            for st in [{"do": "send", "line": cmd}, {"do": "isready"}]:
+                for _ in range(rng.randint(1, 3)):
+                    noisy.append({"do": "send", "line": rng.choice(GARBAGE)})
+                noisy.append(st)
+            noisy.append({"do": "send", "line": rng.choice(GARBAGE)})
+            noisy.append({"do": "isready"})
+            # garbage between position and go
+            sessions.append(noisy + [{"do": "send", "line": cmd}, {"do": "send", "line": rng.choice(GARBAGE)},
+                                     {"do": "go", "line": goline, "extra": {"probe": "g%d" % pi}}, {"do": "isready"}])
+            shard.append(pi)
+    # unknown tokens inside go
+    for g in GO_ODD:
+        sessions.append([{"do": "send", "line": rng.choice(live)}, {"do": "go", "line": g}, {"do": "isready"}, {"do": "quit"}])
+        shard.append(rng.randint(0, 1000))
+    # quit at various points
+    for _ in range(6 if q else 40):
+        steps = [{"do": "send", "line": rng.choice(GARBAGE)}, {"do": "send", "line": rng.choice(live)}]
+        if rng.random() < 0.5:
+            steps.append({"do": "go", "line": rng.choice(GO_ZERO + GO_SMALL)})
+        steps.append({"do": "quit"})
+        sessions.append(steps)
+        shard.append(rng.randint(0, 1000))
+    # end of input after EVERY prefix of sessions that contain blank and garbage lines
+    bases = []
+    for _ in range(3 if q else 12):
+        bases.append([{"do": "isready"}, {"do": "send", "line": ""}, {"do": "send", "line": rng.choice(live)}, {"do": "send", "line": "   "},
+                      {"do": "go", "line": rng.choice(GO_ZERO)}, {"do": "send", "line": rng.choice(GARBAGE)}, {"do": "send", "line": ""}, {"do": "isready"}])
+    for b in bases:
+        for cut in range(len(b) + 1):
+            sessions.append(b[:cut] + [{"do": "eof"}])
+            shard.append(rng.randint(0, 1000))
+    plan(h, sessions)
+    logs = run_sessions(binary, sessions, 8)
+    sample_session(run, sessions[1], logs[1])
+    totals = validate(run, "C17", "sessions", logs, shard_of=lambda i: shard[i], scripts=sessions, binary=binary)
+    if totals.get("exits", 0) < 10 or totals.get("readyoks", 0) < 10:
+        raise ToolError("coverage hole: exits / readyok not observed")
+    model_walleye(run, tier)
+    run.cov["rule"] = ("garbage alphabet (unknown words, empty lines, whitespace and tab runs, a 3000-character line, non-ASCII, near-miss commands) interleaved with "
+                       "well-formed commands; every isready must be answered; the probe after garbage must give the reply of the garbage-free session (memo); unknown "
+                       "tokens inside go; quit must end the process within 1 s; standard input closed after every prefix of sessions containing blank lines must "
+                       "end it within 2 s (a spinning process is killed and reported); Walleye.tla: Ignored stutters, Quit / Eof ~> dead")
+    return run.finish()
+
+
+# ------------------------------------------------------------------------------------------------------------
+# process-level parts of C10 and C18
+# ------------------------------------------------------------------------------------------------------------
+def position_dumps(run, pid, tier):
+    """The instrumented binary logs board + repetition record inside the real command loop after every position command;
+    several position commands per session (this is what sees a missing clear())."""
+    rng = random.Random(vcommon.seed() * 31 + 10)
+    h = vcommon.build_harness()
+    binary = vcommon.build_binary(True)
+    q = tier == "quick"
+    live, _ = pool(h, vcommon.seed() + 5, 4, 0, 10 if q else 60, 10 if q else 60)
+    reps = ["position startpos moves g1f3 g8f6 f3g1 f6g8 g1f3 g8f6 f3g1 f6g8", "position startpos moves b1c3 b8c6 c3b1 c6b8 b1c3 c6b8",
+            "position startpos moves e2e4 e7e5 g1f3 g8f6 f3g1 f6g8 g1f3 g8f6 f3g1 f6g8 d2d4"]
+    sessions, traces = [], []
+    d = R.trace_dir(pid + "-dump")
+    for i in range(10 if q else 80):
+        steps = []
+        for _ in range(rng.randint(2, 5)):
+            steps.append({"do": "send", "line": rng.choice(live + reps)})
+            if rng.random() < 0.3:
+                steps.append({"do": "go", "line": rng.choice(GO_ZERO)})
+        steps.append({"do": "isready"})
+        sessions.append(steps)
+        traces.append(os.path.join(d, "hook%03d.ndjson" % i))
+    plan(h, sessions)
+    logs = run_sessions(binary, sessions, 8, traces)
+    merged = []
+    for evs, tp in zip(logs, traces):
+        dumps = []
+        if os.path.exists(tp):
+            for l in open(tp):
+                e = json.loads(l)
+                if e["ev"] == "pos_done":
+                    dumps.append(e)
+        out, k = [], 0
+        for e in evs:
+            out.append(e)
+            if e["ev"] == "in" and "position" in e and k < len(dumps):
+                dd = dumps[k]
+                k += 1
+                b = dd["board"]
+                out.append({"ev": "posdump", "board": {"r": b["r"], "stm": b["stm"], "cr": b["cr"], "ep": b["ep"]},
+                            "table": [[x[0], x[1]] for x in dd["table"] if x[1] != 0]})
+        merged.append(out)
+    shutil.rmtree(d, ignore_errors=True)
+    totals = validate(run, pid, "dumps", merged, also=(), scripts=sessions, binary=None)
+    if totals.get("posdumps", 0) < 10:
+        raise ToolError("coverage hole: fewer than 10 position dumps from the instrumented binary")
+    run.cov["position_dumps_from_real_loop"] = totals.get("posdumps", 0)
+
+
+def timed_info_lines(run, pid, tier):
+    rng = random.Random(vcommon.seed() * 31 + 18)
+    h = vcommon.build_harness()
+    binary = vcommon.build_binary(False)
+    q = tier == "quick"
+    live, _ = pool(h, vcommon.seed() + 6, 6, 6, 3, 8)
+    sessions = []
+    for _ in range(10 if q else 80):
+        sessions.append([{"do": "send", "line": rng.choice(live)}, {"do": "go", "line": rng.choice(GO_MEDIUM + GO_SMALL)}, {"do": "go", "line": rng.choice(GO_SMALL)}])
+    plan(h, sessions)
+    logs = run_sessions(binary, sessions, 6)
+    totals = validate(run, pid, "timed", logs, scripts=sessions, binary=binary)
+    if totals.get("infos", 0) < 20:
+        raise ToolError("coverage hole: fewer than 20 info lines from timed runs")
+    run.cov["info_lines_from_real_binary"] = totals.get("infos", 0)
